@@ -18,9 +18,9 @@ in `dead`, and lets the indexes map a key to an id.  `deref` follows an id.
 * the code modelled is the tree after the repairs 11eb866 (F5), 6deb704 (F6),
   9985548 (F7), 429fb4b (hostname index in `rmDynamicLease`) and 5958d07
   (`AddStaticLease` stores on error).  Still in the code, hence in the model:
-  `commitName` (R3), `resetLoop` renaming unnamed leases (R4), `releaseLoop`
-  ranging over the slice header it is shrinking.  Also followed: a691f53 (R5,
-  a recycled lease gets a clone of the new hardware address).
+  `releaseLoop` ranging over the slice header it is shrinking.  Also followed:
+  a691f53 (R5, a recycled lease gets a clone of the new hardware address), 410da26
+  (R3) and 2820039 (R4) as the default of the switches `Conf.fixR3/fixR4`.
 -/
 import AGH.Model.Bytes
 namespace AGH.C10
@@ -53,6 +53,15 @@ structure Conf where
   stop : Nat
   leaseTime : Nat
   sid : Nat
+  /-- Code version switches (not configuration).  `true` (the default) is the tree
+  as it is: 410da26 (R3) — `commitLease` does not fall back to a generated hostname
+  that the index already holds for another lease (the lease stays unnamed); 2820039
+  (R4) — `ResetLeases` leaves an unnamed dynamic lease unnamed.  `false` is the code
+  before that repair (kept for the `*_before_fix` counterexamples and so that a
+  scratch tree without the repair can be followed).  The harness reports the level
+  of the tree under test with every reset line; the driver runs that variant. -/
+  fixR3 : Bool := true
+  fixR4 : Bool := true
 deriving Repr, Inhabited
 
 /-- `normalizeHostname` (`none` = error) and `netutil.ValidateHostname h == nil`. -/
@@ -289,6 +298,11 @@ inductive Op
   | rmStatic (mac : Bytes) (ip : Nat) (host : Bytes)
   | sleep (d : Nat)
   | restart
+  /-- Not an operation of the server: `writeDB` sorts the records by hostname with
+  `slices.SortFunc`, which is not stable (beyond 12 records): the file may hold ANY
+  permutation of the table that is sorted by hostname.  `reorder d` replaces the
+  order of the file by such a `d`; histories may contain it anywhere. -/
+  | reorder (d : List DLease)
 deriving DecidableEq, Repr
 
 /-- `netutil.ValidateMAC`. -/
@@ -342,9 +356,15 @@ def handleByRequestType (c : Conf) (mac : Bytes) (sid : Nat) (reqPresent : Bool)
 /-- The hostname `commitLease` settles on: the client's (normalised, or the
 generated one), unless the index already has it — then the generated name for a
 fresh lease (NOT checked against the index), the previous name otherwise. -/
-def commitName (O : Oracle) (l : Lease) (hostname : Bytes) (s : State) : Bytes :=
+def commitName (O : Oracle) (c : Conf) (l : Lease) (hostname : Bytes) (s : State) : Bytes :=
   let hn := validHost O hostname l.ip
-  if (s.hosts hn).isSome then (if l.host = [] then genHost l.ip else l.host) else hn
+  if (s.hosts hn).isSome then
+    if l.host = [] then
+      -- with the repair of R3: a generated name another lease holds is not taken
+      if c.fixR3 && (match s.hosts (genHost l.ip) with | some id => id != l.id | none => false) then []
+      else genHost l.ip
+    else l.host
+  else hn
 
 /-- Give the table lease `l` the hostname `hn` and the expiry `exp`: drop the
 index entry of the previous name if it differs, enter the new name (both by
@@ -357,7 +377,7 @@ def renameLease (l : Lease) (hn : Bytes) (exp : Nat) (s : State) : State :=
 
 /-- `commitLease`. -/
 def commitLease (O : Oracle) (c : Conf) (l : Lease) (hostname : Bytes) (s : State) : State :=
-  (renameLease l (commitName O l hostname s) (s.now + c.leaseTime) s).setIP l.ip l.id
+  (renameLease l (commitName O c l hostname s) (s.now + c.leaseTime) s).setIP l.ip l.id
 
 /-- `handleRequest`. -/
 def handleRequest (O : Oracle) (c : Conf) (mac : Bytes) (sid : Nat) (reqPresent : Bool) (reqIP ciaddr : Nat)
@@ -492,14 +512,22 @@ def rmStatic (c : Conf) (mac : Bytes) (ip : Nat) (rawHost : Bytes) (s : State) :
 
 /-! ### restart -/
 
+/-- The hostname a record of the file gets in `ResetLeases`: a static lease
+keeps it; a dynamic lease is re-validated (an empty name becomes the generated
+one — R4 — unless the repair is in). -/
+def loadHost (O : Oracle) (c : Conf) (d : DLease) : Bytes :=
+  if d.static || (c.fixR4 && d.host == []) then d.host else validHost O d.host d.ip
+
+/-- `toLease` + the hostname of `ResetLeases`, as a fresh object. -/
+def loadLease (O : Oracle) (c : Conf) (d : DLease) (id : Nat) : Lease :=
+  { id := id, mac := d.mac, ip := d.ip, host := loadHost O c d, static := d.static, exp := d.exp }
+
 /-- `ResetLeases` over the records of the file, in file order; a record that
 `addLease` rejects is skipped. -/
 def resetLoop (O : Oracle) (c : Conf) : List DLease → State → State
   | [], s => s
   | d :: rest, s =>
-    let l : Lease := { id := s.nextId, mac := d.mac, ip := d.ip,
-                       host := (if d.static then d.host else validHost O d.host d.ip), static := d.static, exp := d.exp }
-    match addLease c l s.fresh.2 with
+    match addLease c (loadLease O c d s.nextId) s.fresh.2 with
     | .error _ => resetLoop O c rest s.fresh.2
     | .ok s' => resetLoop O c rest s'
 
@@ -511,6 +539,18 @@ def restart (O : Oracle) (c : Conf) (s : State) : State :=
   | some d => resetLoop O c d s0
 
 /-! ### one step -/
+
+/-- Non-decreasing hostnames (`strings.Compare`). -/
+def sortedByHost : List DLease → Bool
+  | [] => true
+  | [_] => true
+  | a :: b :: r => !bytesLt b.host a.host && sortedByHost (b :: r)
+
+/-- Another order `writeDB` may have produced for the same records. -/
+def reorderDisk (d : List DLease) (s : State) : State :=
+  match s.disk with
+  | some d0 => if d.isPerm d0 && sortedByHost d then { s with disk := some d } else s
+  | none => s
 
 def step (O : Oracle) (c : Conf) (s : State) (op : Op) : State × Reply :=
   let s := { s with stale := [] }
@@ -524,6 +564,7 @@ def step (O : Oracle) (c : Conf) (s : State) (op : Op) : State × Reply :=
   | .rmStatic mac ip h => rmStatic c mac ip h s
   | .sleep d => ({ s with now := s.now + d }, Reply.api "ok")
   | .restart => (restart O c s, Reply.api "ok")
+  | .reorder d => (reorderDisk d s, Reply.api "ok")
 
 def run (O : Oracle) (c : Conf) : State → List Op → State
   | s, [] => s
